@@ -89,7 +89,7 @@ for pid in ALL:
 na=[{"property_id":p,"reason":reasons.get(p,"solver-based check not built yet (work in progress; see DESIGN.md §4 for the planned harness)")} for p in ALL if p not in claimed]
 m={
  "version":1,
- "setup_cmd":"cd /verif/engine && GOFLAGS=-mod=mod GOPROXY=off GOSUMDB=off GOTOOLCHAIN=local go build -o /verif/bin/gosx ./cmd/gosx",
+ "setup_cmd":"cd /verif/engine && GOFLAGS=-mod=mod GOPROXY=off GOSUMDB=off GOTOOLCHAIN=local go build -o /verif/bin/gosx ./cmd/gosx && /verif/bin/gosx selftest",
  "hooks":{"guard":"verif","enable":"harness files carry //go:build verif and are injected into package goatlang through a go build/go packages overlay (-tags verif -overlay); nothing is committed to /repo",
           "baseline_off_cmd":"cd /repo && GOFLAGS=-mod=mod GOPROXY=off go test -vet=off -count=1 ./...","source_commits":[],"add_only":True},
  "engines":[{"name":"gosx","path":"/verif/engine","serves_properties":sorted(claimed),"kind_free_text":"symbolic executor for Go SSA (x/tools go/ssa) with concrete heap and symbolic scalars; z3/cvc5 as deciders; native replay of counterexamples"}],
